@@ -10,6 +10,7 @@ The theorem says that the contents of the lines sent are the model's `grun`, the
 import DtailModel.Generated.Code
 import DtailModel.Lemmas.GoRT
 import DtailModel.Model.Grep
+set_option autoImplicit false
 namespace Dtail.GenGrep
 open Dtail Dtail.Go Dtail.Gen.Grep
 
